@@ -246,9 +246,9 @@ class Distrust(_Base):
     encoded = Components.encoded
     assumptions = Components.assumptions[:2] + [
         "distrust_genotypes=True: reading taken for the statement's 'chain of reads' - a read links the positions it covers at which its own sample is heterozygous in the super-reads; in pedigree mode with genetic haplotyping the positions homozygous in some sample's super-reads form the master block (this is phase.py's documented intent; the statement itself only speaks about trusted genotypes)",
-        "super-reads cover every accessible position with alleles in {0,1}",
+        "super-reads cover every accessible position with alleles in {0,1} or the solver's EQUAL_SCORES code 3 for an undecided allele",
     ]
-    required_cover = ["read covers a position that became homozygous", "two components", "master block merges components"]
+    required_cover = ["read covers a position that became homozygous", "two components", "master block merges components", "site with an undecided allele (EQUAL_SCORES)"]
 
     def shapes(self, tier):
         if tier == "quick":
@@ -269,14 +269,23 @@ class Distrust(_Base):
         acc_idx = list(covered)
         accessible = [pos[i] for i in acc_idx]
         het = {s: {} for s in range(len(family))}
+        tie = {s: {} for s in range(len(family))}
         superreads = {}
         for s, name in enumerate(family):
             tr = []
             for i in acc_idx:
-                h = e.bit("s%d.het%d" % (s, i))
+                # "tie": the solver could not decide one (or both) of the alleles and reports EQUAL_SCORES (allele code 3) - such
+                # a site is neither heterozygous nor homozygous after phasing: it links nothing and the writer leaves it unphased
+                kind = e.choice("s%d.kind%d" % (s, i), ["het", "hom", "tie"] if mode == "single" else ["het", "hom"])
+                h = 1 if kind == "het" else 0
                 het[s][i] = h
-                # both heterozygous orientations and both homozygous genotypes occur
-                tr.append((pos[i], (s + i) % 2, 1 - (s + i) % 2) if h else (pos[i], i % 2, i % 2))
+                tie[s][i] = kind == "tie"
+                if kind == "tie":
+                    e.cover("site with an undecided allele (EQUAL_SCORES)")
+                    tr.append((pos[i], 3, (s + i) % 2) if i % 2 else (pos[i], (s + i) % 2, 3))
+                else:
+                    # both heterozygous orientations and both homozygous genotypes occur
+                    tr.append((pos[i], (s + i) % 2, 1 - (s + i) % 2) if h else (pos[i], i % 2, i % 2))
             superreads[name] = tr
         info = lambda: dict(positions=e.value(pos), incidence=inc, het=het, mode=mode)
         try:
@@ -290,7 +299,7 @@ class Distrust(_Base):
             if any(inc[r][i] and not het[sid][i] for i in acc_idx):
                 e.cover("read covers a position that became homozygous")
             groups.append(g)
-        homs = [i for i in acc_idx if any(not het[s][i] for s in range(len(family)))]
+        homs = [i for i in acc_idx if any(not het[s][i] and not tie[s][i] for s in range(len(family)))]
         if genetic and len(family) > 1:
             groups.append(homs)
         want = closure(n, groups)
